@@ -25,7 +25,7 @@ fn main() {
         use vlab::qcore::{self, QCfg};
         use vlab::util::J;
         for (ind, ev) in [(false, false), (true, true)] {
-            let cfg = QCfg { indirect: ind, event_idx: ev, ap: false, legacy: false, start_off: 0, notify_ops: false, abstract_idx: false, trace: false, reduced: false, preroll: 0, wait_pop: false, oom: false, bad_args: false };
+            let cfg = QCfg { indirect: ind, event_idx: ev, ap: false, legacy: false, start_off: 0, notify_ops: false, abstract_idx: false, trace: false, reduced: false, preroll: 0, wait_pop: false, oom: false, bad_args: false, drop_op: false };
             chooser::begin(&[], false);
             let r = vlab::util::catch(|| qcore::warp_faithfulness::<4>(cfg, 65536 + 5));
             let _ = chooser::end();
